@@ -105,9 +105,9 @@ CLAIMED["C18"] = dict(
     technique="Lean 4 structural induction over mutual tree types + differential execution against the profiler compiled from current sources",
     design="DESIGN.md section 4, C18")
 CLAIMED["C19"] = dict(
-    text="7 Lean 4 theorems: for every DAG, wellFormed (offsets and edge endpoints in range, children contiguous, edges grouped by source with edges_begin/end a partition, in-degree certificate) implies that the chronological replay, for ANY dequeue order, readies/starts/ends every leaf exactly once, touches no inner node and ends with nothing running or ready; string interning (distinct names <-> distinct indices, all indices in the table); dump and shrink preserve root totals. PARTIAL: that every flatten / shrink output is wellFormed (C19_flatten_wf, C19_prune_wf) is proved only for the strings/size conjuncts - it is established per run by executing the verified checker on every dumped, re-read and converted DAG. Tie: model arrays compared field by field with the implementation's T/E/S; dump vs re-read identical by memcmp on the implementation (file I/O and mmap not modelled); replay counters equal.",
-    note="PARTIAL as stated. Trusted: Lean kernel; event heap abstracted to an arbitrary pick; conversion exercised through dr_read_dag / dr_copy_pi_dag / dr_gen_basic_stat / dr_gen_pi_dag (the body of dag2any with --shrink), dag2any's option parsing and sqlite/text writers are not run; byte-level file round trip by correspondence only.",
-    technique="Lean 4 counting invariant over an abstract event queue + verified executable checker + differential execution",
+    text="13 Lean 4 theorems: for every DAG, wellFormed (offsets and edge endpoints in range, children contiguous, edges grouped by source with edges_begin/end a partition, in-degree certificate) implies that the chronological replay, for ANY dequeue order, readies/starts/ends every leaf exactly once, touches no inner node and ends with nothing running or ready; string interning (distinct names <-> distinct indices, all indices in the table); dump and shrink preserve root totals. C19_flatten_wf: for every well-nested execution, both recorder variants and every contraction option the dumped DAG (dr_make_pi_dag of the recorded, arbitrarily contracted tree) passes ALL seven conjuncts of wellFormed (layout of dr_pi_dag_enum_nodes, edges a permutation of a tree-defined edge list going forward in preorder, Kahn elimination certificate), hence C19_flatten_replay. PARTIAL: that every shrink output is wellFormed (C19_prune_wf) is not proved in general - it is established per run by executing the verified checker on every converted DAG. Tie: model arrays compared field by field with the implementation's T/E/S; dump vs re-read identical by memcmp on the implementation (file I/O and mmap not modelled); replay counters equal.",
+    note="PARTIAL only for the shrinking conversion (C19_prune_wf). Trusted: Lean kernel; event heap abstracted to an arbitrary pick; conversion exercised through dr_read_dag / dr_copy_pi_dag / dr_gen_basic_stat / dr_gen_pi_dag (the body of dag2any with --shrink), dag2any's option parsing and sqlite/text writers are not run; byte-level file round trip by correspondence only.",
+    technique="Lean 4 structural induction over recorded trees (layout, edge order, elimination certificate) + counting invariant over an abstract event queue + verified executable checker + differential execution",
     design="DESIGN.md section 4, C19")
 
 CLAIMED["C16"] = dict(
